@@ -158,6 +158,14 @@ func witnessVariants(p Node, deep bool, f func(Case)) {
 			mk("exact", exactS, exactP, h, t)
 		}
 	}
+	if len(sh.afters) > 0 {
+		// sub-second medians on both sides of the lock second (midpoint of an even timestamp window)
+		for _, tn := range []int64{1, 500_000_000, 999_999_999} {
+			for _, t := range []int64{lockTime - 1, lockTime} {
+				f(Case{P: p, Sigs: exactS, Pres: exactP, H: lockHeight, T: t, TN: tn, Tag: "exact-subsecond", NoAddr: true})
+			}
+		}
+	}
 	H, T := uint64(lockHeight), int64(lockTime+1)
 	if len(exactS)+len(exactP) > 0 {
 		mk("none", nil, nil, H, T)
